@@ -491,6 +491,9 @@ def r6_components(program, rep):
     rep.guard("C04-R3", C04.r3_ranges, program, rep)
     rep.guard("C04-R3", C04.r3_upcheck_all_members, program, rep)
     rep.guard("C04-R5", C04.r5_contract, program, rep)
+    # alias records of one minimisation never reach another (a stale record
+    # lets a later table accept a merge that covers a live entry)
+    rep.guard("C04-R4", C04.r4_aliases_effects, program, rep)
     rep.guard("C03-R2", C03.r2_repair, program, rep)
     rep.guard("C03-R5", C03.r5_reconnect, program, rep)
     rep.guard(["C03-R3", "C03-R4"], C03.r3_growth, program, rep)
